@@ -107,6 +107,7 @@ theorem tick_refines : type_of% @PSO.Bridge.tick_refines := @PSO.Bridge.tick_ref
 (also for any wall-clock cut-off and any disconnect point). -/
 theorem send_loop_refines : type_of% @PSO.Bridge.sendRun_refines := @PSO.Bridge.sendRun_refines
 theorem send_loop_cut_refines : type_of% @PSO.Bridge.sendRun_cut_refines := @PSO.Bridge.sendRun_cut_refines
+theorem send_loop_probe_refines : type_of% @PSO.Bridge.sendRun_probe_refines := @PSO.Bridge.sendRun_probe_refines
 
 /-- Non-vacuity: in the demo run nodes 0 and 1 report positions 0..2 committed, node 2 nothing. -/
 example : ∃ s, Reachable 3 s ∧ (s.nodes 0).commit = 2 ∧ (s.nodes 1).commit = 2 ∧ (s.nodes 2).commit = 0 := by
